@@ -152,7 +152,7 @@ def run(ctx):
         "proved over the reals (props/C01_accuracy.v): for a <= 4 earth radii (a near-earth orbit has a0 < 1.93, so this is the whole range in which the model keeps a within a factor of two of its epoch value) and eL^2 <= 4/25, on every converged exit each coordinate of the returned position is within 1e-6 km, and of the returned velocity within 1e-9 km/s, of the report's at the exact solution of Kepler's equation (Lipschitz constants 570000 km/rad and 460 (km/s)/rad in E + omega)",
         "proved over the reals (props/C01_newton.v): for eL^2 <= 4/25 the regenerated iterates are the second-order step f / (f' + f'' f / 2f'), the first-step clamp is inactive, each step squares the error (factor 43/50), the sixth stopping test cannot fail, so exit 10 (no convergence, last iterate returned unchecked) is unreachable and the 1 mm / 1 um/s claim holds for EVERY answered propagation with a <= 4 (C01_answered_position_accuracy, both leaves)",
         "proved (C01_answered_when_healthy*, C01_iss_answered): decay guards, eL^2 <= 4/25 and osculating perigee >= 1.005 earth radii imply that the propagation IS answered; the ISS set at epoch meets every hypothesis of the accuracy theorem (interval arithmetic), so none of the theorems is vacuous; input-only form (C01_accuracy_at_epoch_or_drag_free): an accepted set with e0 <= 0.39 and TLE mean motion 6.4..18 rev/day, at epoch or drag-free at any time, is answered within 1 mm / 1 um/s of the report",
-        "not proved: convergence of the Newton iteration for eL^2 > 4/25 (e above about 0.4); binary64 rounding -- both sampled by the oracle",
+        "proved as well (P_Newton47 / P_Sgp4Newton47): for eL^2 <= 2209/10000 (eL <= 0.47, every eccentricity an accepted ordinary orbit can have) the loop leaves by its seventh test; not proved there: the Lipschitz step to 1 mm (constants too coarse beyond eL = 0.4) and, everywhere, binary64 rounding -- both covered by the 60-digit oracle",
         "exact oracle: a sample of the cases, probes at 179.985 .. 179.9999 deg, a stratum at 0.2 <= e0 <= 0.47 (reaching beyond eL^2 <= 4/25, where the convergence and accuracy theorems stop) and a stratum on the accepted high-eccentricity island (e0 >= 0.9993) are compared with the report's equations evaluated at 60 digits (checks/mpref_tool.py under python3-vt/mpmath, the same source text as the binary64 reference); skipped, and said so, if python3-vt is missing",
         "translator trusted for 'emitted term = what the code computes over R'; self-checked each run against the interpreter (outcome class and state to 1e-6 km)",
     ]
